@@ -5,6 +5,7 @@ CONSTANTS
   Want = 2
   Cancels = {TRUE}
   Lates = {FALSE}
+  ClosingCheck = FALSE
   Stops = {FALSE, TRUE}
 INVARIANTS TypeOK
 PROPERTIES Termination
